@@ -633,6 +633,9 @@ func fieldPath(v ssa.Value) ([]*types.Var, ssa.Value) {
 			if x.Op != token.MUL {
 				return chain, v
 			}
+			if _, isFA := x.X.(*ssa.FieldAddr); !isFA {
+				return chain, v // a load of something that is not a field: this is the base value
+			}
 			v = x.X
 		case *ssa.FieldAddr:
 			st := derefStruct(x.X.Type())
